@@ -256,10 +256,10 @@ def apply_esubst(p, x, g, mode='naive', fresh_shortcut=True):
         return (t, apply_esubst(p[1], x, g, mode, fresh_shortcut), apply_esubst(p[2], x, g, mode, fresh_shortcut))
     if t == 'E':
         if p[1] == x: return p
-        if mode == 'check' and not e_fresh(g, p[1]): raise Capture('esubst under exists %d' % p[1])
+        if mode == 'check' and not e_fresh(g, p[1]) and not e_fresh(p[2], x): raise Capture('esubst under exists %d' % p[1])
         return EX(p[1], apply_esubst(p[2], x, g, mode, fresh_shortcut))
     if t == 'M':
-        if mode == 'check' and not s_fresh(g, p[1]): raise Capture('esubst under mu %d' % p[1])
+        if mode == 'check' and not s_fresh(g, p[1]) and not e_fresh(p[2], x): raise Capture('esubst under mu %d' % p[1])
         return MU(p[1], apply_esubst(p[2], x, g, mode, fresh_shortcut))
     if t == 'm' and fresh_shortcut and x in p[2]: return p
     return ES(p, x, g)
@@ -272,11 +272,11 @@ def apply_ssubst(p, x, g, mode='naive', fresh_shortcut=True):
     if t in ('i', 'a'):
         return (t, apply_ssubst(p[1], x, g, mode, fresh_shortcut), apply_ssubst(p[2], x, g, mode, fresh_shortcut))
     if t == 'E':
-        if mode == 'check' and not e_fresh(g, p[1]): raise Capture('ssubst under exists %d' % p[1])
+        if mode == 'check' and not e_fresh(g, p[1]) and not s_fresh(p[2], x): raise Capture('ssubst under exists %d' % p[1])
         return EX(p[1], apply_ssubst(p[2], x, g, mode, fresh_shortcut))
     if t == 'M':
         if p[1] == x: return p
-        if mode == 'check' and not s_fresh(g, p[1]): raise Capture('ssubst under mu %d' % p[1])
+        if mode == 'check' and not s_fresh(g, p[1]) and not s_fresh(p[2], x): raise Capture('ssubst under mu %d' % p[1])
         return MU(p[1], apply_ssubst(p[2], x, g, mode, fresh_shortcut))
     if t == 'm' and fresh_shortcut and x in p[3]: return p
     return SS(p, x, g)
